@@ -148,10 +148,10 @@ static const Violation *relevant(const std::string &prop, const RunResult &r) {
 
 // ---------------------------------------------------------------- C18: systematic fault enumeration over a scenario corpus
 static Op mkop(int kind, uint32_t dt, std::initializer_list<int64_t> a) { Op o; o.kind = kind; o.dt = dt; int i = 0; for (auto v : a) if (i < 8) o.a[i++] = v; return o; }
-static std::vector<Plan> c18_scenarios() {
+static std::vector<Plan> c18_scenarios(bool thorough) {
     std::vector<Plan> out;
-    static const uint32_t MT[] = {1500, 576, 9216, 1500, 1280, 1500};
-    for (int s = 0; s < 6; s++) {
+    static const uint32_t MT[] = {1500, 576, 9216, 1500, 1280, 1500, 4096, 577, 1501, 9000, 2048, 1492};
+    for (int s = 0; s < (thorough ? 12 : 6); s++) {
         Plan p;
         p.prop = "C18"; p.family = s; p.seed = 1800 + s; p.t0 = 7000 + 1000 * s; p.mac_seed = 0xC18 + s; p.memfill = s % 2 ? 0xFE : 0xA5; p.memfill_seed = 99 + s;
         p.latency = 1; p.twin = true; p.tail_ms = 600;
@@ -159,7 +159,7 @@ static std::vector<Plan> c18_scenarios() {
         n.glue = s % 3 == 2 ? GLUE_DARWIN : (s % 3 == 1 ? GLUE_LEGACY : GLUE_BARE); n.mtu = MT[s]; n.attr_seed = 4242 + s * 7; n.wifi = s % 2 == 1; n.rxfill = 0;
         p.nodes.push_back(n);
         int M = 0;
-        int br = s == 4 ? 1 : -1;
+        int br = (s == 4 || s == 9) ? 1 : -1;
         Attr a = make_attr(n.attr_seed, n.wifi);
         a.mac.a[5] = (uint8_t)(a.mac.a[5] & 0xF0);
         p.ops.push_back(mkop(OP_DISCOVER, 5, {M, br, 0, 0x1001 + s, 3, 0, 0, 0}));
@@ -176,6 +176,8 @@ static std::vector<Plan> c18_scenarios() {
         p.ops.push_back(mkop(OP_QLT, 10, {M, br, 0, 12, 0x11, 0, 0}));
         p.ops.push_back(mkop(OP_QLT, 10, {M, br, 0, 13, 0x13, 0, 0}));
         p.ops.push_back(mkop(OP_QLT, 10, {M, br, 0, 14, 0x77, 0, 0}));
+        if (s >= 6) p.ops.push_back(mkop(OP_FETCH, 10, {M, br, 0, 30, s % 2 ? 0x0E : 0x11, 0, 40})); // a whole fetch loop; the fault hits its first request
+        if (s >= 8) p.ops.push_back(mkop(OP_CHARGE, 10, {M, 0, 0, 15}));
         p.ops.push_back(mkop(OP_FLOOD, 10, {2, 5000, 0, 0, 0}));
         int reset_at = (int)p.ops.size();
         (void)reset_at;
@@ -200,7 +202,8 @@ static std::vector<Plan> c18_scenarios() {
 static std::vector<Plan> g_c18_variants;
 static void build_c18_variants(const std::string &tier) {
     if (!g_c18_variants.empty()) return;
-    auto sc = c18_scenarios();
+    bool thorough = tier == "thorough";
+    auto sc = c18_scenarios(thorough);
     for (auto &base : sc) {
         if (base.family == 100) {
             for (int which = 0; which < 4; which++)
@@ -233,6 +236,12 @@ static void build_c18_variants(const std::string &tier) {
             for (uint64_t j = 0; j < ns && j < 62; j++) { Plan v = base; v.ops[i].f.push_back({F_SENDFAIL, (int64_t)(1ull << j), 0}); g_c18_variants.push_back(v); }
             if (ns > 0) { Plan v = base; v.ops[i].f.push_back({F_SENDFAIL, (int64_t)0x3FFFFFFFFFFFFFFFll, 0}); g_c18_variants.push_back(v); }
             if (ns > 2) { Plan v = base; v.ops[i].f.push_back({F_SENDFAIL, 0x6, 0}); g_c18_variants.push_back(v); }
+            if (thorough) { // pairs of faults on one request: an allocation failure together with a refused transmit
+                for (uint64_t k = 1; k <= na && k <= 6; k++)
+                    for (uint64_t j = 0; j < ns && j < 4; j++) { Plan v = base; v.ops[i].f.push_back({F_ALLOCFAIL, (int64_t)k, 1}); v.ops[i].f.push_back({F_SENDFAIL, (int64_t)(1ull << j), 0}); g_c18_variants.push_back(v); }
+                // the same allocation index failing on two consecutive requests
+                if (i + 1 < reset_index) for (uint64_t k = 1; k <= na && k <= 3; k++) { Plan v = base; v.ops[i].f.push_back({F_ALLOCFAIL, (int64_t)k, 1}); v.ops[i + 1].f.push_back({F_ALLOCFAIL, (int64_t)k, 1}); g_c18_variants.push_back(v); }
+            }
             if (na > 0) {
                 static const uint32_t G[4] = {G_MTU, G_MAC, G_ICON | G_FNAME | G_HWID, G_HOSTNAME | G_WIFIMODE};
                 int lim = tier == "thorough" ? 16 : 16;
@@ -545,7 +554,7 @@ static PropMeta meta_for(const std::string &p) {
     return m;
 }
 static const char *RULES(const std::string &p) {
-    if (p == "C18") return "cases = (scenario, request, fault) triples enumerated systematically: every k-th allocation of every request of 6 fixed multi-request scenarios (single, double and all-from-k failures), every single send index and bursts, all 15 non-empty subsets of 4 getter groups, 24 constructor fault points; a case is non-trivial when the injected fault actually fired or a constructor was probed; distinct = distinct abstract traces (per delivery: opcode, ToS class, number and opcodes of replies, fault flag) among those";
+    if (p == "C18") return "cases = (scenario, request, fault) triples enumerated systematically: every k-th allocation of every request of 6 (thorough: 12, plus fault pairs) fixed multi-request scenarios (single, double and all-from-k failures), every single send index and bursts, all 15 non-empty subsets of 4 getter groups, 24 constructor fault points; a case is non-trivial when the injected fault actually fired or a constructor was probed; distinct = distinct abstract traces (per delivery: opcode, ToS class, number and opcodes of replies, fault flag) among those";
     if (p == "C05") return "plans: stratified sweep (run index i < 131072 visits (state, ToS, opcode) = (i>>16, (i>>8)&255, i&255)) followed by seeded random histories over 3-5 stations; non-trivial = a Discover was decided by the reference model (accepted+answered, rejection expected, or foreign-service Discover); distinct = distinct abstract traces (sequence of delivered opcode, ToS class, reply count and opcodes) among those; cells = distinct (state, ToS, opcode) triples delivered";
     if (p == "C14") return "plans: stratified single steps (index i < 5760 visits (state, input in [-128,255], elapsed class)) then seeded walks over switch/advance/tick/add/charge; non-trivial = the passive or tick oracle fired, or a stratified cell; distinct = distinct abstract traces; cells = (state, input, elapsed class) visited";
     if (p == "C15") return "plans: stratified single steps (index i < 160 visits (state, event 0..7, elapsed class)) then seeded walks; distinct = distinct abstract traces (op kind, resulting states); cells = (state, event, elapsed class) visited";
@@ -608,6 +617,26 @@ int main(int argc, char **argv) {
         Plan p = plan_for(prop, vseed, max_runs, tier);
         printf("%s", plan_to_text(p).c_str());
         return 0;
+    }
+    if (mode == "vgrun") { // executed under valgrind (plain flavour): plans start, start+stride, ... in this one process
+        uint64_t start = 0, stride = 1;
+        for (int i = 2; i < argc; i++) { std::string a = argv[i]; if (a == "--start" && i + 1 < argc) start = strtoull(argv[i + 1], 0, 10); if (a == "--stride" && i + 1 < argc) stride = strtoull(argv[i + 1], 0, 10); }
+        for (uint64_t i = start; i < max_runs; i += stride) {
+            Plan p = plan_for(prop, vseed, i, tier);
+            RunResult r = run_plan(p, false);
+            printf("VG-RUN %llu\n", (unsigned long long)i);
+            for (auto &v : r.v) printf("VG-VIOLATION %llu %s\t%s\n", (unsigned long long)i, vclass(v).c_str(), v.detail.c_str());
+            fflush(stdout);
+        }
+        return 0;
+    }
+    if (mode == "vgreplay") { // in-process replay for valgrind
+        std::string text = read_file(prop), err;
+        Plan p;
+        if (!plan_from_text(text, p, err)) return 2;
+        RunResult r = run_plan(p, false);
+        for (auto &v : r.v) printf("VG-VIOLATION 0 %s\t%s\n", vclass(v).c_str(), v.detail.c_str());
+        return r.v.empty() ? 0 : 1;
     }
     if (mode == "hashes") { // determinism self-test helper: print log hashes of indices [0, runs)
         for (uint64_t i = 0; i < max_runs; i++) {
